@@ -173,6 +173,14 @@ class Genome:
         if gene.name in self._genes and not self.allow_mutations:
             if not self.silent:
                 print(f"🧬 [Genome] Cannot overwrite gene: {gene.name}")
+            # A refused overwrite is a refused mutation: keep it in the audit trail
+            self._mutations.append(Mutation(
+                gene_name=gene.name,
+                original_value=self._genes[gene.name].value,
+                new_value=gene.value,
+                reason="add_gene on an existing gene",
+                approved=False
+            ))
             return False
 
         self._genes[gene.name] = gene
